@@ -17,7 +17,7 @@ func init() {
 
 func ruleC02Mutators(cx *Ctx) {
 	const rule = "C02.mutators"
-	cx.R.Rule(rule, 6, "package otter touches its main table only through Get, Compute, Range and Size; Map.Clear has no caller; node creators and retirers run only inside closures handed to the table's Compute")
+	cx.R.Rule(rule, 2, "package otter touches its main table only through Get, Compute, Range and Size; Map.Clear has no caller; node creators and retirers run only inside closures handed to the table's Compute")
 	hm := cx.needField(rule, "", "cache", "hashmap")
 	if hm == nil {
 		return
@@ -159,7 +159,7 @@ func reachesInstr(fn *ssa.Function, pred func(ssa.Instruction) bool, seen map[*s
 
 func ruleC02LockOrder(cx *Ctx) {
 	const rule = "C02.lockorder"
-	cx.R.Rule(rule, 10, "lock order eviction lock -> bucket lock -> in-flight bucket lock is acyclic: nothing reachable from a table computation takes the eviction lock, waits on a load record or dispatches a loader; in-flight table computations never reach the main table; wait() and loader dispatch never run with the eviction lock possibly held")
+	cx.R.Rule(rule, 3, "lock order eviction lock -> bucket lock -> in-flight bucket lock is acyclic: nothing reachable from a table computation takes the eviction lock, waits on a load record or dispatches a loader; in-flight table computations never reach the main table; wait() and loader dispatch never run with the eviction lock possibly held")
 	hmf := cx.needField(rule, "", "cache", "hashmap")
 	callsF := cx.needField(rule, "", "group", "calls")
 	mu := cx.needField(rule, "", "cache", "evictionMutex")
@@ -251,6 +251,9 @@ func mayHeldRegion(lock ssa.Instruction, mu interface{}) []ssa.Instruction {
 		for ; i < len(b.Instrs); i++ {
 			in := b.Instrs[i]
 			if _, isDefer := in.(*ssa.Defer); !isDefer && isStdMethod(in, "sync", "Mutex", "Unlock") && sameField(recvField(in), recvField(lock)) {
+				return
+			}
+			if f := recvField(lock); f != nil && unlockLike(in, f) {
 				return
 			}
 			out = append(out, in)
